@@ -165,13 +165,6 @@ Fixpoint emit_copy (fuel : nat) (offset len : N) : list N :=
 
 Definition emit_copy_fuel (len : N) : nat := S (N.to_nat (len / 64)).
 
-(** snappy_read32 at position p (checked) *)
-Definition rd32 (x : list N) (p : nat) : option N :=
-  match skipn p x with
-  | a :: b :: c :: d :: _ => Some (le_val [a; b; c; d])
-  | _ => None
-  end.
-
 (** common prefix length: while (ip < iend && *ip == *ref) { ip++; ref++; }  ([a] is the input from
     ip on, [b] the input from ref on; ref < ip, so [b] is the longer one) *)
 Fixpoint cpl (a b : list N) : nat :=
@@ -179,8 +172,6 @@ Fixpoint cpl (a b : list N) : nat :=
   | u :: a', v :: b' => if u =? v then S (cpl a' b') else O
   | _, _ => O
   end.
-
-Definition slice (x : list N) (from to : nat) : list N := firstn (to - from) (skipn from x).
 
 Section Compress.
   (** The match finder.  [look st ip] is "ref = src + hash_table[h]; hash_table[h] = ip" and
@@ -241,21 +232,5 @@ Definition compress_c {St} (look : St -> nat -> nat * St) (ins : St -> nat -> St
 Definition HASH_MUL : N := 506832829.   (* 0x1e35a7bd; kept in step with the source by the byte-exact tie *)
 Definition snappy_hash (v : N) : N := ((v * HASH_MUL) mod 2 ^ 32) / 2 ^ (32 - Snappy_SNAPPY_HASH_LOG).
 
-Definition table := PositiveMap.t N.
-Definition tget (t : table) (h : N) : N :=
-  match PositiveMap.find (N.succ_pos h) t with Some v => v | None => 0 end.
-Definition tset (t : table) (h v : N) : table := PositiveMap.add (N.succ_pos h) v t.
-
-Definition hash_look (x : list N) (t : table) (ip : nat) : nat * table :=
-  match rd32 x ip with
-  | Some v => let h := snappy_hash v in (N.to_nat (tget t h), tset t h (N.of_nat ip mod 65536))
-  | None => (ip, t)
-  end.
-Definition hash_ins (x : list N) (t : table) (p : nat) : table :=
-  match rd32 x p with
-  | Some v => tset t (snappy_hash v) (N.of_nat p mod 65536)
-  | None => t
-  end.
-
 Definition compress (x : list N) : res (list N) :=
-  compress_with (hash_look x) (hash_ins x) (PositiveMap.empty N) x.
+  compress_with (hash_look snappy_hash x) (hash_ins snappy_hash x) (PositiveMap.empty N) x.
